@@ -1,6 +1,7 @@
 # Shared orchestration for C01 and C10: spec specs/tsmengine (TSMEngine, TSMEngineGen),
 # harness harness/tsm1/zz_verif_engine_test.go (package tsm1, real tsdb.Store on a scratch directory).
-import json, os, shutil, tempfile, random
+import json, os, shutil, tempfile, random, glob
+from concurrent.futures import ThreadPoolExecutor
 from vcheck import Infra, log
 
 PKG = "tsdb/engine/tsm1"
@@ -22,18 +23,38 @@ def mc_consts(keys=("a1", "b1"), times=(0, 1), w=3, batch=1, snap=1, comp=0, del
             "MaxCompact": comp, "MaxDelete": dele, "MaxCrash": crash, "Dev": q(*dev)}
 
 
-def mc(ctx, sd, name, consts, invs, timeout=900):
+def mc(ctx, sd, name, consts, invs, timeout=1500, workers=8):
     ctx.write_cfg(sd, name + ".cfg", "Spec", consts, invs, "Bounded")
-    res = ctx.tlc_check(sd, "TSMEngine", name + ".cfg", workers=8, timeout=timeout, coverage=not ctx.quick())
+    res = ctx.tlc_check(sd, "TSMEngine", name + ".cfg", workers=workers, timeout=timeout, coverage=not ctx.quick())
     log("  TLC %s: %d distinct states, %d generated, %.1fs" % (name, res["distinct"], res["generated"], res["wall_s"]))
+    if not ctx.quick():
+        # vacuity guard: every process of the configuration must have moved (bounds > 0 => its actions are covered)
+        zero = [z for z in res.get("zero_coverage", []) if z.split("@")[0] in expected_procs(consts)]
+        if zero:
+            raise Infra("zero-coverage actions in %s: %s" % (name, zero))
     return res
+
+
+def expected_procs(c):
+    p = {"Writer", "Faults"} if c["MaxCrash"] > 0 else {"Writer"}
+    if c["MaxSnap"] > 0: p.add("Snapshotter")
+    if c["MaxCompact"] > 0: p.add("CompactorP")
+    if c["MaxDelete"] > 0: p.add("Deleter")
+    return p
+
+
+def run_parallel(jobs, max_workers=3):
+    """jobs: list of zero-argument callables (TLC runs); the machine is shared, wall-clock matters more than CPU."""
+    with ThreadPoolExecutor(max_workers=max_workers) as ex:
+        futs = [ex.submit(j) for j in jobs]
+        return [f.result() for f in futs]
 
 
 def negative_control(ctx, sd, name, consts, inv):
     """With the deviation enabled the model must be able to break the property; otherwise the
     configuration is vacuous (the deviation or the invariant lost its teeth): check broken."""
     ctx.write_cfg(sd, name + ".cfg", "Spec", consts, [inv], "Bounded")
-    res = ctx.tlc_check(sd, "TSMEngine", name + ".cfg", workers=8, timeout=300, expect_ok=False)
+    res = ctx.tlc_check(sd, "TSMEngine", name + ".cfg", workers=4, timeout=600, expect_ok=False)
     if res["ok"] or not any(inv in v for v in res["violated"]):
         raise Infra("negative control %s: TLC did not find the expected violation of %s" % (name, inv))
     log("  TLC %s: deviation reproduces as a violation of %s (expected)" % (name, inv))
@@ -125,3 +146,11 @@ def need_hooks(ctx):
     if "verifhook" not in open(p).read():
         raise Infra("the tsm1 verif hooks are not in %s (apply /verif/patches/C01/0[1-3]-hook-*.diff, or run with "
                     "VERIF_REPO=<worktree that has them>)" % ctx.repo)
+
+
+def known_behaviours(ctx):
+    """The minimal replays of the recorded findings are always part of the batch (DESIGN 4.10)."""
+    out = []
+    for p in sorted(glob.glob(os.path.join(os.path.dirname(os.path.dirname(os.path.abspath(__file__))), "replays", ctx.prop, "known-*.json"))):
+        out.append(json.load(open(p))["replay"]["behaviour"])
+    return out
